@@ -297,6 +297,9 @@ pub fn canonical_lines(res: &RunResult) -> Vec<String> {
             Ev::ISend(ev) => out.push(format!("Q {}", ev.name)),
             Ev::IRecv(ev) => out.push(format!("I {}", ev.name)),
             Ev::XRecv(ev) => out.push(format!("X {}", ev.name)),
+            Ev::Mark { tag, .. } if tag == "in" || tag == "ev" || tag == "data" || tag == "ro" => {
+                // probes of C09: checked by their own monitors, not part of the reference trace
+            }
             Ev::Mark { tag, args, .. } => {
                 let a: Vec<String> = args
                     .iter()
